@@ -1,3 +1,5 @@
+import Proofs.EcdsaInstToy
+import Proofs.EcdsaInstCurve
 import Proofs.EcdsaSign
 import Proofs.EcdsaTruncate
 import Proofs.EcdsaKeys
@@ -135,5 +137,34 @@ example : truncateAndConvertDigest [0xab, 0xcd, 0xef] (Util.orderlen 0x1ff) 0x1f
 
 example : fromSecretExponent Toy.ops 3 = .ok 3 ∧ fromSecretExponent Toy.ops 7 = .error .malformedPoint := by
   decide +kernel
+
+/-! ### the same, for the model of the real point classes
+`Ecdsa.OnCurve.ops c` is what the model driver executes (`Model/EcdsaCurve.lean` over `Model/Curve.lean`: the
+`PointJacobi` code as written).  `OnCurve.Matches c C`: odd prime field `p`, the curve parameters of `c`, a group
+context `C` (Mathlib's curve group, base point `C.G` with `n • G = 0`, `n` an odd prime) and the generator object
+denotes `C.G`; point objects are `OnCurve.Valid` (INFINITY or a `PointJacobi` denoting an element of ⟨G⟩, declared
+order `n` or none).  The interface `PointOpsCorrect` is *proved* for it (Proofs/EcdsaInstCurve.lean, from C06/C07). -/
+section OnCurve
+open GroupInterface
+variable {p : ℕ} [Fact p.Prime] {a b : ℤ}
+
+theorem sign_eq_standard_on_curve (c : Affine.Crv) (C : Ctx p a b) (M : OnCurve.Matches c C) (d e k : ℤ)
+    (hk : 1 ≤ k ∧ k < c.n) :
+    ∃ x, OnCurve.xcOf (k • C.G) = some x ∧
+      sign (OnCurve.ops c) d e k =
+        (let r := x % c.n
+         let s := invZ c.n k * (e + r * d) % c.n
+         if r = 0 ∨ s = 0 then .error .rsZero else .ok (r, s)) :=
+  sign_eq_standard (OnCurve.pointOpsCorrect c C M) d e k hk
+
+theorem pubkey_eq_dG_on_curve (c : Affine.Crv) (C : Ctx p a b) (M : OnCurve.Matches c C) (d : ℤ) :
+    (1 ≤ d ∧ d < c.n → ∃ A, fromSecretExponent (OnCurve.ops c) d = .ok A ∧ OnCurve.Valid C A ∧ OnCurve.den C A = d • C.G) ∧
+    (¬ (1 ≤ d ∧ d < c.n) → fromSecretExponent (OnCurve.ops c) d = .error .malformedPoint) :=
+  pubkey_eq_dG (OnCurve.pointOpsCorrect c C M) d
+
+/-- non-vacuity: the hypotheses are satisfiable (toy curve y² = x³ + x + 6 over 𝔽₁₁, G = (2,7), n = 13) -/
+example : ∃ C : Ctx 11 1 6, OnCurve.Matches OnCurve.toyCrv C := OnCurve.toy_matches
+
+end OnCurve
 
 end C03
